@@ -159,6 +159,11 @@ Definition decrypt (k : skey) (c : Z) : Z :=
   let mq := (lq * sk_negpinv_q k) mod q in
   recombine_N k mp mq.
 
+(* Decrypt's membership check: the ciphertext must be an element of Z*_{N^2} for this
+   key's N (UnitGroupTrait.Contains compares the moduli); cN is the ciphertext's N *)
+Definition decrypt_checked (k : skey) (cN c : Z) : option Z :=
+  if cN =? sk_N k then Some (decrypt k c) else None.
+
 (* SecretKey.Open: (m, r) ; None when the recovered value is not a nonce *)
 Definition open_ct (k : skey) (c : Z) : option (Z * Z) :=
   let p := sk_p k in let q := sk_q k in let N := sk_N k in
